@@ -215,13 +215,19 @@ class MCLevyCopulaSimulation:
         grid = self.process.grid
         sample = self.process.sampling.sample
         pivot_position = grid.origin_coordinate
+        dimension = len(grid.axes)
+        current_value = np.zeros(dimension)  # the values are the running sums of the jumps over all the intervals
         for k, nb_of_jumps in enumerate(all_nb_of_jumps):
             states_increments = sample(size=nb_of_jumps)
-            xy = (
+            xy = [
                 grid[pivot_position + state_increment]
                 for state_increment in states_increments
+            ]
+            all_values[k] = current_value + np.cumsum(
+                np.array(xy, dtype=float).reshape((len(xy), dimension)), axis=0
             )
-            all_values[k] = np.cumsum(np.array(list(xy)), axis=0)
+            if len(xy):
+                current_value = all_values[k][-1]
             all_states_increments[k] = states_increments
 
         return all_values, all_states_increments
@@ -243,9 +249,7 @@ class MCLevyCopulaSimulationFixedTimes(MCLevyCopulaSimulation, SimulationFixedTi
     def simulate_one_path(self) -> StochasticPath:
         # simulate the jump values
         simulated_jumps = self.simulate_jumps()
-        jumps = np.hstack(
-            (np.zeros(self._dimension)[:, np.newaxis], simulated_jumps[:, np.newaxis])
-        )
+        jumps = np.hstack((np.zeros(self._dimension)[:, np.newaxis], simulated_jumps))
 
         # simulate the diffusion part
         simulated_diffusion = self.simulate_diffusion_part()
@@ -265,11 +269,14 @@ class MCLevyCopulaSimulationFixedTimes(MCLevyCopulaSimulation, SimulationFixedTi
 
     @staticmethod
     def project(values, dim):
-        zero = (0.0,) * dim
-        definitive_values = (
-            sliceStates[-1] if sliceStates.size else zero for sliceStates in values
-        )
-        return np.array(*definitive_values)
+        # one column per date: value of the jump process at that date (unchanged if there is no jump in the interval)
+        definitive_values = np.zeros(shape=(dim, len(values)))
+        for k, sliceStates in enumerate(values):
+            if sliceStates.size:
+                definitive_values[:, k] = sliceStates[-1]
+            elif k > 0:
+                definitive_values[:, k] = definitive_values[:, k - 1]
+        return definitive_values
 
     def simulate_jumps(self):
         mc = self.simulate_markov_chain()
@@ -339,7 +346,7 @@ class MCLevyCopulaSimulationWithJumpTimes(
 
     def simulate_jumps(self):
         mc = self.simulate_markov_chain()
-        jump_values = np.concatenate(mc.values, axis=-1).T
+        jump_values = np.concatenate(mc.values, axis=0).T
         jump_times = mc.times
         return jump_times, jump_values
 
